@@ -848,6 +848,13 @@ def decide_dump(prop, tier, seed, mode, keep, what):
     extra = []
     if prop in ("C14", "C15"):
         extra = reference_check(prop, model)
+    if prop == "C15":
+        for h_name, h in hars:
+            rc_i, impl_i, _ = sh([h["bin"], mode])
+            for l in impl_i.splitlines():
+                f = l.split()
+                if f and f[0] == "BC" and (f[2] != "ON" or f[3] != "ON"):
+                    extra.append("bracket U+%s has Bidi_Class %s / %s (must be ON)" % (f[1].upper(), f[2], f[3]))
     viol = bool(problems or extra or not ps["ok"])
     cov = {"evaluations": n_impl, "distinct_nontrivial": n_impl, "exhaustive": True,
            "rule": what, "samples": model.splitlines()[:3] + model.splitlines()[-2:],
@@ -981,7 +988,7 @@ def main():
         if prop == "C14":
             return decide_dump(prop, tier, seed, "tables", lambda l: l.startswith(("C ", "F ", "version", "MISMATCH", "MODEL-")), "bidi_class of every Unicode scalar value (1,112,064), run-length encoded, implementation vs model vs reference")
         if prop == "C15":
-            return decide_dump(prop, tier, seed, "tables", lambda l: l.startswith(("B ", "MISMATCH")), "bidi_matched_opening_bracket of every scalar value (all with an answer listed; all others None)")
+            return decide_dump(prop, tier, seed, "tables", lambda l: l.startswith(("B ", "BC ", "MISMATCH")), "bidi_matched_opening_bracket of every scalar value (all with an answer listed; all others None) and the Bidi_Class of every bracket through both public accessors (must be ON)")
         if prop == "C19":
             return decide_dump(prop, tier, seed, "levels", lambda l: True, "every Level operation on its whole domain (256 constructor arguments, 127 levels x 256 amounts per mutator, 127 levels per helper), debug and release builds")
         if prop == "C20":
